@@ -225,6 +225,8 @@ fn sched_probes(r: &mut RunReport, s: &RunStats) {
     probe(r, "host-zone-read-under-baton", s.host_reads);
     probe(r, "file-open-under-baton", s.opens);
     probe(r, "statement-point-yield", s.stmt_point_yields);
+    probe(r, "condvar-wait", s.cv_waits);
+    probe(r, "condvar-notify", s.cv_notifies);
 }
 
 pub fn run_c20(plan: &Plan, keep_trace: bool) -> RunReport {
@@ -242,7 +244,11 @@ pub fn run_c20(plan: &Plan, keep_trace: bool) -> RunReport {
             class: why.clone(),
             detail: format!("run aborted: {why} after {} steps", sr.stats.steps),
         });
-        finish_fp(&mut r, sr.fingerprint, &outcomes);
+        // After an abort the threads unwind concurrently, outside the baton:
+        // which of their operations still complete is not decided by the
+        // schedule, so the fingerprint is the event log up to the abort only.
+        let _ = &outcomes;
+        finish_fp(&mut r, sr.fingerprint, &[]);
         r.nontrivial = true;
         reset_shared();
         return r;
@@ -305,7 +311,8 @@ pub fn run_c03(plan: &Plan, keep_trace: bool) -> RunReport {
     // Deadlocks are C20's business; an aborted run decides nothing here.
     if sr.aborted.is_some() {
         probe(&mut r, "aborted-run-ignored", 1);
-        finish_fp(&mut r, sr.fingerprint, &outcomes);
+        let _ = &outcomes;
+        finish_fp(&mut r, sr.fingerprint, &[]);
         reset_shared();
         return r;
     }
